@@ -203,7 +203,10 @@ static void runSarsop(Rng & rng, const Inst & I, const PModel & m, const std::st
 
 static void runGapMin(Rng & rng, const Inst & I, const PModel & m, const std::string & tier) {
     static const double tols[] = {0.1, 0.01, 0.005};
-    double tol = tols[rng.below(3)]; unsigned digits = (unsigned)rng.range(1, tier == "thorough" ? 4 : 2);
+    double tol = tols[rng.below(3)];
+    // precisionDigits drives the tolerance of the inner PBVI/FIB runs (threshold*(1-discount)/2): 2 digits at discount 15/16 already costs
+    // minutes per iteration under the sanitizers, so quick uses 1 digit and thorough at most 2
+    unsigned digits = (unsigned)rng.range(1, tier == "thorough" ? 2 : 1);
     Obs ob{&I, "GapMin", tier == "thorough" ? 60u : 12u};
     AIToolbox::Verif::anytimeObserver = std::ref(ob);
     std::printf("#in GapMin tol=%g digits=%u shape=%s\n", tol, digits, I.shape.c_str()); std::fflush(stdout);
